@@ -224,6 +224,16 @@ def dyadic(rng):
     return rng.randint(1, 64) / 16.0
 
 
+def near_one(rng, n):
+    """n positive dyadic weights (denominator 1024) whose sum is within 1% of 1 but is not 1:
+    normalise() must still normalise them"""
+    total = rng.choice([1015, 1019, 1022, 1023, 1025, 1027, 1031, 1033])
+    ks = [rng.randint(1, 64) for _ in range(n)]
+    sc = [max(1, (k * total) // sum(ks)) for k in ks]
+    sc[-1] = max(1, sc[-1] + total - sum(sc))
+    return [k / 1024.0 for k in sc]
+
+
 def weigh_det(g, wmode, wseed, cands):
     """Returns (pgrammar, model mode, raw weight wire, sample wire)."""
     if wmode == "uniform":
@@ -243,7 +253,13 @@ def weigh_det(g, wmode, wseed, cands):
         return pg, 1, det_weights(raw), []
     if wmode == "hand":
         rng = random.Random(wseed)
-        raw = {S: {P: dyadic(rng) for P in g.rules[S]} for S in g.rules}
+        if wseed % 3 == 0:
+            raw = {}
+            for S in g.rules:
+                ws = near_one(rng, len(g.rules[S]))
+                raw[S] = {P: w for P, w in zip(g.rules[S], ws)}
+        else:
+            raw = {S: {P: dyadic(rng) for P in g.rules[S]} for S in g.rules}
         pg = ProbDetGrammar(g, {S: dict(v) for S, v in raw.items()})
         pg.normalise()
         return pg, 1, det_weights(raw), []
@@ -289,8 +305,18 @@ def weigh_u(g, wmode, wseed):
         sraw = {S: next(it) for S in g.starts}
         return pg, 1, u_weights(raw), [[u_nt(S), qwire(q)] for S, q in sraw.items()]
     rng = random.Random(wseed)
-    raw = {S: {P: {tuple(alt): dyadic(rng) for alt in der} for P, der in g.rules[S].items()} for S in g.rules}
-    sraw = {S: dyadic(rng) for S in g.starts}
+    if wseed % 3 == 0:
+        raw = {}
+        for S in g.rules:
+            keys = [(P, tuple(alt)) for P, der in g.rules[S].items() for alt in der]
+            ws = near_one(rng, len(keys))
+            raw[S] = {}
+            for (P, alt), w in zip(keys, ws):
+                raw[S].setdefault(P, {})[alt] = w
+        sraw = {S: w for S, w in zip(g.starts, near_one(rng, len(g.starts)))}
+    else:
+        raw = {S: {P: {tuple(alt): dyadic(rng) for alt in der} for P, der in g.rules[S].items()} for S in g.rules}
+        sraw = {S: dyadic(rng) for S in g.starts}
     pg = ProbUGrammar(g, {S: {P: dict(a) for P, a in v.items()} for S, v in raw.items()}, dict(sraw))
     pg.normalise()
     return pg, 1, u_weights(raw), [[u_nt(S), qwire(q)] for S, q in sraw.items()]
